@@ -92,7 +92,9 @@ def t_graph3(ctx):
     import asyncio
 
     async def main():
-        buses = {n: ctx.bus(n) for n in names}
+        # the names the buses carry inside bubus are a configuration: plain, or each a prefix of the next ('Orders' / 'OrdersArchive')
+        real = {'plain': {}, 'nested': {'A': 'Orders', 'B': 'OrdersArchive', 'C': 'OrdersArchiveEU'}}[ctx.cfg.get('naming', 'plain')]
+        buses = {n: (ctx.bus(n, name_=real[n]) if n in real else ctx.bus(n)) for n in names}
         for n in names:
             ctx.on(buses[n], P, f'h{n}', ret=n.lower())
         for (i, j), on in adj.items():
@@ -135,6 +137,8 @@ def jobs(tier):
                     if tier == 'quick' and entry != 'A' and not (ab and bc):
                         continue
                     out.append(Job('C07', 'fw.graph3', t_graph3, dict(entry=entry, fixed={'e_AB': ab, 'e_BC': bc, 'e_CA': ca})))
+                    if tier != 'quick' or (ab and bc) or entry == 'C':
+                        out.append(Job('C07', 'fw.graph3', t_graph3, dict(entry=entry, naming='nested', fixed={'e_AB': ab, 'e_BC': bc, 'e_CA': ca})))
     W = ('forwarded',)
     out += [
         mk('C07', 'fw/chain3', S.forward_chain(3, topo='chain', second_event=True), witnesses=W),
@@ -145,6 +149,7 @@ def jobs(tier):
         mk('C07', 'fw/deep4', S.fw_deep4(), witnesses=W),
         mk('C07', 'fw/same_names', S.fw_same_names(), witnesses=W),
         mk('C07', 'fw/idle_then_stop', S.fw_idle_then_stop(), witnesses=W),
+        mk('C07', 'fw/target_loop_died', S.fw_target_loop_died(), witnesses=W),
         mk('C07', 'fw/evict/BADC', S.fw_evict(('B', 'A', 'D', 'C')), witnesses=W),
     ]
     if tier == 'thorough':
